@@ -2,6 +2,7 @@
 from common import Report, Rng, chunks, coq_check_props, coq_eval, harness_build, log, NCPU
 import storelib as S
 import tracelib as T
+import crashlib as C
 
 PROFILE = {"weights": {"set": 10, "del": 4, "merge": 3, "reopen": 3, "get": 1},
            "cfg": lambda r: {"mfs": r.choice([0, 30, 60, 100, 200, 30000]), "sync": r.chance(1, 3)}}
@@ -100,6 +101,14 @@ def main(tier, seed):
                                 "trace": [x.show() for x in T.flat_trace(c)][:80]})
         if c.name in died:
             rep.failing.append({"what": "the store process died or hung under the recorder", "case": c.show()})
+    # recovery of directories left by a killed process must obey the discipline too: nothing truncated, renamed, reopened for writing
+    sub = [c for c in cases if c.name not in died][:{"quick": 40, "thorough": 400}[tier]]
+    items = C.build_items(sub, rng, cuts_per_write=1, max_points=6)
+    forb = C.recover_forbidden_calls(items)
+    if forb:
+        rep.failing.append({"what": "while recovering a directory left by a killed process the store issued a call the file discipline forbids: " + forb[0],
+                            "all": sorted(set(forb))[:8], "images": len(items)})
+    rep.obligation("recovery of %d crash images issues no truncate / rename / positional write / open-for-write" % len(items), not forb)
     rep.obligation("correspondence traces: model = recorded implementation on every operation", ndis == 0)
     rep.obligation("monitor accepts every recorded trace", nrej == 0)
     rep.failing.sort(key=lambda f: len(f["case"]["ops"]))
@@ -112,7 +121,8 @@ def main(tier, seed):
                                        if any(o[0] in ("merge", "reopen") for o in c.ops))),
         "rule": "distinct (operation kinds, max_file_size) among scripts with a merge or reopen; each script runs on the real "
                 "store under the LD_PRELOAD recorder; the recorded mutating calls are compared per operation with the model's "
-                "trace, fed to the Coq monitor, and checked by an independent re-statement of the discipline",
+                "trace, fed to the Coq monitor, and checked by an independent re-statement of the discipline; crash images cut from "
+                "the recorded traces are recovered under the recorder as well (no truncate / rename / reopen for writing)",
         "calls_recorded": ncalls, "call_kinds": kinds,
         "samples": [{"case": cases[0].show(), "trace": [x.show() for x in T.flat_trace(cases[0])][:30]}],
         "proof": {"file": "coq/Props/C14.v", "theorems": pr["theorems"], "axioms": pr["axioms"]},
